@@ -6,7 +6,7 @@ val = {}
 for line in open('/verif/work/validate.log'):
     m = re.match(r'RESULT seeded/(\S+): (.*)', line)
     if m: val[m.group(1)] = m.group(2).strip()
-for extra in glob.glob('/verif/work/validate_*.log'):
+for extra in sorted(glob.glob('/verif/work/validate_*.log')) + sorted(glob.glob('/verif/work/revalidate_*.log')):
     for line in open(extra):
         m = re.match(r'RESULT seeded/(\S+): (.*)', line)
         if m: val[m.group(1)] = m.group(2).strip()
